@@ -201,6 +201,12 @@ Theorem C13_step_refines_partial_replace_any : forall w (r n o : nref),
                  (outcome_class (snd (step w (ReplaceChild r n o)))).
 Proof. exact step_refines_partial_replace_any. Qed.
 
+Theorem C13_step_refines_partial_replace_document : forall w (r n o : nref),
+  WInv w -> receiver_is_document w r = true -> KnownDocMove w r n = false -> KnownDocSwap w r n o = false ->
+  DomL1.conforms (abs w) (DomL1.AReplaceChild r n o) (abs (fst (step w (ReplaceChild r n o))))
+                 (outcome_class (snd (step w (ReplaceChild r n o)))).
+Proof. intros w r n o Hw _. apply step_refines_partial_replace_any. exact Hw. Qed.
+
 Theorem C13_step_refines_partial_create_element : forall w d name,
   WInv w -> elem_name_agrees name -> refines_on w (CreateElement d name) (DomL1.ACreateElement d (n_str name)).
 Proof. exact step_refines_partial_create_element. Qed.
@@ -414,6 +420,17 @@ Proof.
   rewrite E2 in H. discriminate.
 Qed.
 
+(** two instances of the whole theorem on the example document: set_attribute that adds a new
+    attribute ([pre_world] is the world itself) and set_attribute on the attribute that is present
+    ([pre_world] holds the node built first) *)
+Example C13_step_refines_instance :
+  conforms_from ex_world (SetAttribute (0, 3) (nm [121]) val_v) (DomL1.ASetAttribute (0, 3) [121] [118])
+  /\ conforms_from ex_world (SetAttribute (0, 3) (nm [120]) val_2lt) (DomL1.ASetAttribute (0, 3) [120] (d_str val_2lt)).
+Proof.
+  destruct C13_example_attr as [H2 [Hp [N1 [N2 [V1 [V2 _]]]]]].
+  split; apply C13_step_refines; try assumption; try (split; assumption); try reflexivity.
+Qed.
+
 Example C13_set_attribute_strict_refuted :
   KnownSetAttrGarbage ex_world (0, 3) (nm [120]) val_2lt = true
   /\ outcome_class (snd (step ex_world (SetAttribute (0, 3) (nm [120]) val_2lt)))
@@ -463,3 +480,4 @@ Print Assumptions C13_step_refines.
 Print Assumptions C13_step_refines_reachable.
 Print Assumptions C13_step_refines_reachable_fact_free.
 Print Assumptions C13_inv2_checkable.
+Print Assumptions C13_step_refines_partial_replace_document.
